@@ -15,8 +15,8 @@ Local Open Scope string_scope.
 
 (* The statement for every site and both modes. It is NOT asserted: the faithful model refutes it
    without the class premise (lemmas *_refuted below), and with the premise it is proved for the
-   unqualified TypeScript sites (C05_sound_plain) and, for the remaining sites, only up to nesting
-   depth 2 (C05_sweep_sound_depth2_partial). *)
+   unqualified TypeScript sites (C05_sound_plain) and, for the remaining sites, only on bounded sweeps
+   of the model (C05_sweep_sound_depth1_partial here; depth 2 in Proofs/C05Sweep2.v). *)
 Definition C05_sound_full_statement : Prop :=
   forall (s : site) (md : mode) (t : rty),
     dom_b t = true -> kf_C05 s md [] t = false ->
@@ -94,24 +94,26 @@ Theorem C05_compositional_tuple : forall s md l, plain_site s md = true ->
 Proof. intros s md l Hs. apply comp_tuple; [constructor | exact Hs]. Qed.
 
 (* All five sites, both modes (namespace-qualified return/event types and Zod parameter/field
-   schemas included), every constructor spine up to depth 2 - the enumeration of the quick tier.
+   schemas included), every constructor spine up to depth 1 (196 types). The depth-2 sweep (3763 types, the
+   enumeration of the quick tier) is Proofs/C05Sweep2.v, compiled by the thorough tier; it is kept out of
+   this file's closure because coqchk re-evaluates it without the VM.
    [sound_at s md t] reads: the model prints a text at the site and, unless the case lies in a
    recorded class (kf_C05), the specification accepts that text (c05_ok).
    Bounded, hence _partial. *)
-Theorem C05_sweep_sound_depth2_partial :
-  forall t, In t (spines 2) -> forall s md, sound_at s md t = true.
-Proof. exact (sweep_spec sound_at (spines 2) sweep_sound_depth2). Qed.
+Theorem C05_sweep_sound_depth1_partial :
+  forall t, In t (spines 1) -> forall s md, sound_at s md t = true.
+Proof. exact (sweep_spec sound_at (spines 1) sweep_sound_depth1). Qed.
 
-Theorem C05_sweep_domain_depth2_partial :
-  forall t, In t (spines 2) -> dom_b t = true.
-Proof. exact (proj1 (forallb_forall dom_b (spines 2)) (proj1 sweep_domain_depth2)). Qed.
+Theorem C05_sweep_domain_depth1_partial :
+  forall t, In t (spines 1) -> dom_b t = true.
+Proof. exact (proj1 (forallb_forall dom_b (spines 1)) (proj1 sweep_domain_depth1)). Qed.
 
 (* ... and the site-specific classes are exact there. [exact_at s md t] reads: if t is outside the
    two parser classes and inside one of the six site-specific classes, the specification rejects
    the text the model prints. *)
-Theorem C05_classes_exact_depth2_partial :
-  forall t, In t (spines 2) -> forall s md, exact_at s md t = true.
-Proof. exact (sweep_spec exact_at (spines 2) sweep_exact_depth2). Qed.
+Theorem C05_classes_exact_depth1_partial :
+  forall t, In t (spines 1) -> forall s md, exact_at s md t = true.
+Proof. exact (sweep_spec exact_at (spines 1) sweep_exact_depth1). Qed.
 
 (* Each recorded class is a genuine failure of the faithful model: an in-domain type that lies in
    that class only, and whose printed text the specification rejects. *)
@@ -153,7 +155,7 @@ Example C05_compositional_premises :
     = Some (TsUnion (TsName (L "User") []) (TsName (L "null") []) []).
 Proof. unfold good. vm_compute. repeat split; reflexivity. Qed.
 Example C05_sweep_premises :
-  exists t, In t (spines 2) /\ tts t = L "Vec<HashMap<String, i32>>" /\ kf_C05 SParam MZod [] t = false.
+  exists t, In t (spines 1) /\ tts t = L "HashMap<String, f64>" /\ kf_C05 SParam MZod [] t = false.
 Proof. exact sweep_premises_example. Qed.
 
 Print Assumptions C05_parse_faithful.
@@ -168,9 +170,9 @@ Print Assumptions C05_compositional_result1.
 Print Assumptions C05_compositional_ref.
 Print Assumptions C05_compositional_map.
 Print Assumptions C05_compositional_tuple.
-Print Assumptions C05_sweep_sound_depth2_partial.
-Print Assumptions C05_sweep_domain_depth2_partial.
-Print Assumptions C05_classes_exact_depth2_partial.
+Print Assumptions C05_sweep_sound_depth1_partial.
+Print Assumptions C05_sweep_domain_depth1_partial.
+Print Assumptions C05_classes_exact_depth1_partial.
 Print Assumptions C05_union_under_seq_refuted.
 Print Assumptions C05_result_ok_has_comma_refuted.
 Print Assumptions C05_tuple_elem_has_comma_refuted.
